@@ -332,13 +332,31 @@ ADDENDA.update({
         "is monitored on axis-regular fields over all cells on every run); Props/C01Nine.lean covers the documented 9-point "
         "Laplacian (corner-point setter, exact on cubics for isotropic spacing, inconsistent for anisotropic spacing as the code "
         "warns). Distances are measured from the axis r = 0, so grids with a hole are judged in every cell.",
+ "C02": "After the review: the non-finite branch of MixedBC (infinite, negative and the singular coefficient -2/dx) is modelled and "
+        "generated, the composed end-state theorems are proved (after setGhostAll every face of a compatible list satisfies its "
+        "defining equation: setGhostAll_holds), the low/high and two-element-sequence formats and unknown keys are modelled in "
+        "BCParse, get_virtual_point_data (const, factor, index) and get_boundary_values are tied, linked values are exercised in "
+        "two phases (found three defects, repaired in /repo); known finding: expression-valued Robin coefficient equal to -2/dx.",
+ "C03": "After the review: a schedule leg executes the real kernel source with prange in seed-derived permutations on logging "
+        "proxy arrays and checks the hypotheses of the schedule-independence theorem on the real trace (distinct writes, no read "
+        "of the output, no write of the input; bernstein_schedule_independent, with witnesses that each hypothesis is needed), the "
+        "thread leg covers every prange kernel and asserts that it really ran in parallel, 26-35 routes per case incl. field-level "
+        "out=, BoundariesList objects, backend= on field methods and the 9-point Laplacian; matrix-route theorems for every grid class.",
+ "C18": "After the review: every problem is classified independently of the solver (exact rank of the model matrix over Q, "
+        "distance of the right-hand side from its range) and `reported as errors` is judged in both directions (found three "
+        "defects of the general Poisson solver, repaired in /repo); matvec = progSum for every row program, the assembled rows "
+        "equal the C01 stencils on the ghost-extended array for 2-d, 3-d, cylindrical and the r_min = 0 rows of disks and balls.",
  "C04": "After the review the cache theorems are composed with key faithfulness through observable projections "
         "(make_operator_cache_sound, make_operator_events_sound), the exact-value text of numbers is proved injective on all "
         "dyadics, the heap model carries the compile-time copy of compiled rates, histories share argument objects and use twin "
         "grids of different classes, and one-sided crashes are failures.",
  "C05": "Props/C01Nine.lean adds conservation of the 9-point Laplacian for every n x m incl. the corner points (this found and "
         "pins the repaired periodic-y corner defect). The simulation leg varies solver options, boundary conditions of the "
-        "non-conserved operators, multi-field PDEs and both backends.",
+        "non-conserved operators, multi-field PDEs and both backends. Props/C05b.lean: zero-sum theorems as corollaries of "
+        "setGhostAll applied to zero-flux / periodic face lists (1-3-d Laplacian and divergence, polar, spherical, cylindrical incl. "
+        "periodic z, radii = cell centres); Props/C05c.lean: every solver step and loop of C06's solver model conserves a linear "
+        "functional with I(rate) = 0 (Euler, RK4 and RKF45 from the extracted tableaux, implicit/CN iterates, AB2, fixed and "
+        "adaptive loops).",
  "C06": "Correction: adaptive runs are compared with the Float model at max(1e-9, 1e-14/tolerance) relative, not bit-exactly. "
         "After the review: model-independent stage-time and quadrature monitors for the adaptive solvers (these found the "
         "adaptive-Euler stage-time defect and the end-time overshoot, both repaired in /repo), the literal clause `ends exactly "
